@@ -1,11 +1,14 @@
 package p2c
 
 // Trace driver for property C14 (overlaid into rpc/internal/balancer/p2c by /verif/bin/check).
-// It drives pickers built by p2cPickerBuilder (the builder registered as "p2c_ewma") over fake
-// ready SubConns with seeded random Pick/Done sequences under the virtual clock
-// (timex.SetVerifClock) and logs, after every operation, the projection [infl, succ, lag] of
-// every connection.  The log (ndjson) is validated step by step against spec/P2C.tla by
-// spec/P2CTrace.tla; this file decides nothing.
+// It drives pickers obtained the way grpc obtains them: balancer.Get(Name) (the builder this
+// package registers in init()) builds one balancer per fake ClientConn; the driver feeds it
+// resolver addresses and SubConn state changes and uses the pickers the balancer publishes through
+// ClientConn.UpdateState.  Every picker of the process therefore comes from the one registered
+// picker-builder instance, as in a program with several rpc clients.  Seeded random Pick/Done
+// sequences run under the virtual clock (timex.SetVerifClock); after every operation the
+// projection [infl, succ, lag] of the picker's connections is logged.  The log (ndjson) is
+// validated step by step against spec/P2C.tla by spec/P2CTrace.tla; this file decides nothing.
 //
 //   VERIF_C14_MODE=seq    sequential traces (every step validated)
 //   VERIF_C14_MODE=conc   8 goroutines per picker; only the quiescent end state is logged
@@ -14,6 +17,12 @@ package p2c
 //   VERIF_C14_MODE=reorder two completions of one connection applied out of the order of the times
 //                         they read (the first is parked inside its timex.Now() call while the
 //                         clock advances and the second runs to the end), n = 1, 2, 3
+//   VERIF_C14_MODE=multi  several pickers alive at once (two or three clients brought up one after the
+//                         other, connections going down and up again so that a client's picker is
+//                         rebuilt while its previous picker still serves a few picks and the
+//                         completions of its calls); picks and completions of all of them interleaved.
+//                         Every event names its picker ("p"); a picker's ready connections are those
+//                         of its own build
 //   VERIF_C14_MODE=stats  long 1 kHz runs with one dead backend; measured shares and pick gaps
 //                         are written as JSON (the thresholds live in checks/c14.py)
 
@@ -24,6 +33,7 @@ import (
 	"fmt"
 	"math/rand"
 	"os"
+	"sort"
 	"sync"
 	"sync/atomic"
 	"testing"
@@ -33,8 +43,8 @@ import (
 	"github.com/gotid/god/lib/logx"
 	"github.com/gotid/god/lib/timex"
 	"google.golang.org/grpc/balancer"
-	"google.golang.org/grpc/balancer/base"
 	"google.golang.org/grpc/codes"
+	"google.golang.org/grpc/connectivity"
 	"google.golang.org/grpc/resolver"
 	"google.golang.org/grpc/status"
 )
@@ -63,72 +73,229 @@ func c14SatI(v int64) int64 {
 	return v
 }
 
-type c14Picker struct {
-	n      int
-	picker balancer.Picker
-	p      *p2cPicker
-	scs    []*c14Conn
-	byConn map[balancer.SubConn]int // SubConn -> 1..n
-	sub    []*subConn               // index 1..n -> the picker's record
+// c14World: what all pickers of one history share - the virtual clock (with the gate of the
+// reorder traces) and the numbering 1..univ of the history's connections.
+type c14World struct {
 	clock  *kit.Clock
 	base   time.Duration
+	univ   int                      // number of connections of the history
+	next   int                      // connection ids handed out so far
+	byConn map[balancer.SubConn]int // SubConn -> 1..univ
+	byAddr map[string]int
+	npick  int // pickers registered so far (their ids are 0..npick-1)
 	// gate: when armed, the next reader of the clock is parked after it has taken its value
 	armed   atomic.Bool
 	parked  chan struct{}
 	release chan struct{}
 }
 
-func (cp *c14Picker) now() time.Duration {
-	v := cp.clock.Now()
-	if cp.armed.CompareAndSwap(true, false) {
-		cp.parked <- struct{}{}
-		<-cp.release
+func newC14World(univ int) *c14World {
+	w := &c14World{univ: univ, byConn: map[balancer.SubConn]int{}, byAddr: map[string]int{}, clock: kit.NewClock(),
+		parked: make(chan struct{}), release: make(chan struct{})}
+	timex.SetVerifClock(w.now)
+	w.base = w.clock.Now()
+	return w
+}
+
+func (w *c14World) now() time.Duration {
+	v := w.clock.Now()
+	if w.armed.CompareAndSwap(true, false) {
+		w.parked <- struct{}{}
+		<-w.release
 	}
 	return v
 }
 
-func newC14Picker(n int, seed int64) (*c14Picker, error) {
-	cp := &c14Picker{n: n, byConn: map[balancer.SubConn]int{}, clock: kit.NewClock(),
-		parked: make(chan struct{}), release: make(chan struct{})}
-	timex.SetVerifClock(cp.now)
-	cp.base = cp.clock.Now()
-	ready := map[balancer.SubConn]base.SubConnInfo{}
-	for i := 1; i <= n; i++ {
-		sc := &c14Conn{id: i}
-		cp.scs = append(cp.scs, sc)
-		cp.byConn[sc] = i
-		ready[sc] = base.SubConnInfo{Address: resolver.Address{Addr: fmt.Sprintf("10.0.0.%d:80", i)}}
+func (w *c14World) ms() int64 { return int64((w.clock.Now() - w.base) / time.Millisecond) }
+
+// c14Client is the balancer.ClientConn of one fake rpc client: it hands out SubConns and keeps
+// the picker the balancer published last.
+type c14Client struct {
+	balancer.ClientConn // methods a base balancer does not call stay unimplemented
+	w                   *c14World
+	id                  int
+	bal                 balancer.Balancer
+	conns               []*c14Conn
+	state               map[*c14Conn]connectivity.State // the states the driver delivered
+	addrs               []resolver.Address
+	latest              balancer.Picker // published last
+	seen                balancer.Picker // handled by the driver last
+}
+
+func (cl *c14Client) NewSubConn(addrs []resolver.Address, _ balancer.NewSubConnOptions) (balancer.SubConn, error) {
+	id := cl.w.byAddr[addrs[0].Addr]
+	sc := &c14Conn{id: id}
+	cl.conns = append(cl.conns, sc)
+	cl.w.byConn[sc] = id
+	return sc, nil
+}
+func (cl *c14Client) RemoveSubConn(balancer.SubConn)                       {}
+func (cl *c14Client) UpdateAddresses(balancer.SubConn, []resolver.Address) {}
+func (cl *c14Client) UpdateState(s balancer.State)                         { cl.latest = s.Picker }
+func (cl *c14Client) ResolveNow(resolver.ResolveNowOptions)                {}
+func (cl *c14Client) Target() string                                       { return fmt.Sprintf("verif:///c14-%d", cl.id) }
+
+// newC14Client: a client whose resolver reports k addresses; its balancer is built by the builder
+// registered under Name.  All its connections are connecting afterwards.
+func (w *c14World) newClient(id, k int) (*c14Client, error) {
+	bb := balancer.Get(Name)
+	if bb == nil {
+		return nil, fmt.Errorf("no balancer is registered under %q", Name)
 	}
-	cp.picker = new(p2cPickerBuilder).Build(base.PickerBuildInfo{ReadySCs: ready})
-	p, ok := cp.picker.(*p2cPicker)
+	if w.next+k > w.univ {
+		return nil, errors.New("c14: more connections than the history declared")
+	}
+	cl := &c14Client{w: w, id: id, state: map[*c14Conn]connectivity.State{}}
+	for i := 0; i < k; i++ {
+		w.next++
+		a := fmt.Sprintf("10.0.%d.%d:80", id, w.next)
+		w.byAddr[a] = w.next
+		cl.addrs = append(cl.addrs, resolver.Address{Addr: a})
+	}
+	cl.bal = bb.Build(cl, balancer.BuildOptions{})
+	if err := cl.bal.UpdateClientConnState(balancer.ClientConnState{ResolverState: resolver.State{Addresses: cl.addrs}}); err != nil {
+		return nil, fmt.Errorf("UpdateClientConnState: %v", err)
+	}
+	if len(cl.conns) != k {
+		return nil, fmt.Errorf("the balancer created %d SubConns for %d addresses", len(cl.conns), k)
+	}
+	for _, sc := range cl.conns {
+		cl.set(sc, connectivity.Connecting)
+	}
+	return cl, nil
+}
+
+// set delivers a SubConn state change to the client's balancer.
+func (cl *c14Client) set(sc *c14Conn, s connectivity.State) {
+	cl.state[sc] = s
+	st := balancer.SubConnState{ConnectivityState: s}
+	if s == connectivity.TransientFailure {
+		st.ConnectionError = errors.New("verif: connection lost")
+	}
+	cl.bal.UpdateSubConnState(sc, st)
+}
+
+// readyIDs: the connections the driver has reported ready, ascending.
+func (cl *c14Client) readyIDs() []int {
+	ids := []int{}
+	for _, sc := range cl.conns {
+		if cl.state[sc] == connectivity.Ready {
+			ids = append(ids, sc.id)
+		}
+	}
+	sort.Ints(ids)
+	return ids
+}
+
+const c14MaxPickers = 16 // pickers per history (the driver's budget; the trace spec has no bound)
+
+type c14Picker struct {
+	*c14World
+	pid    int // id of the picker within its history
+	client int
+	n      int
+	picker balancer.Picker
+	p      *p2cPicker
+	ready  []int      // the ready connections of this picker's build (driver's record)
+	held   []int      // ids of the connections found in the picker after its build (0 = unknown SubConn)
+	note   string     // set when the published picker refuses to pick
+	sub    []*subConn // connection id -> the picker's record at build time (nil: none)
+}
+
+// register wraps the picker the client's balancer published last.  nil, nil: nothing to drive (no
+// connection is ready and the balancer published an error picker).
+func (w *c14World) register(cl *c14Client, seed int64) (*c14Picker, error) {
+	cl.seen = cl.latest
+	ready := cl.readyIDs()
+	p, ok := cl.latest.(*p2cPicker)
+	if len(ready) == 0 && !ok {
+		return nil, nil
+	}
+	if w.npick >= c14MaxPickers {
+		return nil, errors.New("c14: more pickers than the budget of one history")
+	}
+	cp := &c14Picker{c14World: w, pid: w.npick, client: cl.id, n: w.univ, picker: cl.latest, p: p, ready: ready,
+		held: []int{}, sub: make([]*subConn, w.univ+1)}
+	w.npick++
 	if !ok {
-		return nil, fmt.Errorf("builder returned %T, the driver knows *p2cPicker", cp.picker)
+		// connections are ready and the balancer published something else: a picker that picks is
+		// beyond this driver (harness limit); one that refuses is logged as a picker holding nothing
+		_, err := cl.latest.Pick(balancer.PickInfo{FullMethodName: "/verif/C14", Ctx: context.Background()})
+		if err == nil {
+			return nil, fmt.Errorf("builder returned %T, the driver knows *p2cPicker", cl.latest)
+		}
+		cp.note = fmt.Sprintf("with %d ready connections the published picker %T fails: %v", len(ready), cl.latest, err)
+		return cp, nil
 	}
-	cp.p = p
-	p.r = rand.New(rand.NewSource(seed)) // the pair selection is seeded like every other random choice
-	cp.sub = make([]*subConn, n+1)
+	p.r = rand.New(rand.NewSource(seed ^ int64(cp.pid)<<20)) // the pair selection is seeded like every other random choice
 	for _, c := range p.conns {
-		i, ok := cp.byConn[c.conn]
-		if !ok {
-			return nil, errors.New("picker holds a connection that was not in ReadySCs")
+		i := w.byConn[c.conn]
+		cp.held = append(cp.held, i)
+		if i > 0 && cp.sub[i] == nil {
+			cp.sub[i] = c
 		}
-		cp.sub[i] = c
 	}
-	for i := 1; i <= n; i++ {
-		if cp.sub[i] == nil {
-			return nil, fmt.Errorf("ready connection %d is not in the picker", i)
-		}
+	sort.Ints(cp.held)
+	return cp, nil
+}
+
+// emitBuild logs the picker's build: the ready set it was built over (driver's record) and the
+// connections it holds.
+func (cp *c14Picker) emitBuild(tr *kit.Tracer) {
+	ev := kit.M{"ev": "build", "p": cp.pid, "client": cp.client, "ready": cp.ready, "held": cp.held, "t": cp.ms()}
+	if cp.note != "" {
+		ev["note"] = cp.note
+	}
+	tr.Emit(cp.proj(ev))
+}
+
+// usable: picks of this picker can be attributed
+func (cp *c14Picker) usable() bool { return cp.p != nil && fmt.Sprint(cp.held) == fmt.Sprint(cp.ready) }
+
+// newC14Picker: one client with n connections, all ready; the picker published last (picker 0 of
+// the history).  The caller logs reset and then the build.
+func newC14Picker(n int, seed int64) (*c14Picker, error) {
+	w := newC14World(n)
+	cl, err := w.newClient(0, n)
+	if err != nil {
+		return nil, err
+	}
+	for _, sc := range cl.conns {
+		cl.set(sc, connectivity.Ready)
+	}
+	cp, err := w.register(cl, seed)
+	if err != nil {
+		return nil, err
+	}
+	if cp == nil {
+		return nil, errors.New("c14: no picker although connections are ready")
 	}
 	return cp, nil
 }
 
-func (cp *c14Picker) ms() int64 { return int64((cp.clock.Now() - cp.base) / time.Millisecond) }
+// start logs the head of a single-picker history; false: the picker cannot be driven (the build
+// event tells why)
+func (cp *c14Picker) start(tr *kit.Tracer, id int, profile any) bool {
+	tr.Emit(kit.M{"ev": "reset", "n": cp.n, "id": id, "profile": profile})
+	cp.emitBuild(tr)
+	return cp.usable()
+}
 
-// proj reads [infl, succ, lag(us)] of every connection with atomics.
+// pickFailed logs a pick that returned an error although connections are ready
+func (cp *c14Picker) pickFailed(tr *kit.Tracer, err error) {
+	tr.Emit(cp.proj(kit.M{"ev": "pick", "p": cp.pid, "c": 0, "t": cp.ms(), "note": "Pick failed: " + err.Error()}))
+}
+
+// proj reads [infl, succ, lag(us)] of every connection of the picker with atomics (-1: the
+// picker has no record of that connection of the history).
 func (cp *c14Picker) proj(ev kit.M) kit.M {
 	infl, succ, lag := make([]int64, cp.n), make([]int64, cp.n), make([]int64, cp.n)
 	for i := 1; i <= cp.n; i++ {
 		c := cp.sub[i]
+		if c == nil {
+			infl[i-1], succ[i-1], lag[i-1] = -1, -1, -1
+			continue
+		}
 		infl[i-1] = c14SatI(atomic.LoadInt64(&c.inflight))
 		succ[i-1] = c14SatU(atomic.LoadUint64(&c.success))
 		lag[i-1] = c14SatU(atomic.LoadUint64(&c.lag) / 1000)
@@ -193,7 +360,9 @@ func c14SeqTrace(tr *kit.Tracer, id, n, ops int, seed int64) error {
 		return err
 	}
 	profile := rng.Intn(4) // 0 mixed codes, 1 connection 1 always fails, 2 all fine, 3 mostly failing
-	tr.Emit(kit.M{"ev": "reset", "n": n, "id": id, "profile": profile})
+	if !cp.start(tr, id, profile) {
+		return nil
+	}
 	var calls []c14Call
 	for k := 0; k < ops; k++ {
 		if adv := c14PickAdv(rng); adv > 0 && cp.ms() < 15*60*1000 {
@@ -204,7 +373,8 @@ func c14SeqTrace(tr *kit.Tracer, id, n, ops int, seed int64) error {
 			start := cp.clock.Now()
 			res, err := cp.picker.Pick(balancer.PickInfo{FullMethodName: "/verif/C14", Ctx: context.Background()})
 			if err != nil {
-				return fmt.Errorf("Pick with %d ready connections failed: %v", n, err)
+				cp.pickFailed(tr, err)
+				return nil
 			}
 			c := cp.byConn[res.SubConn] // 0 = not one of the ready connections
 			tr.Emit(cp.proj(kit.M{"ev": "pick", "c": c, "t": cp.ms()}))
@@ -242,13 +412,16 @@ func c14StreakTrace(tr *kit.Tracer, id, n, want, maxPicks int, seed int64) error
 	if err != nil {
 		return err
 	}
-	tr.Emit(kit.M{"ev": "reset", "n": n, "id": id, "profile": "streak"})
+	if !cp.start(tr, id, "streak") {
+		return nil
+	}
 	done1 := 0
 	for k := 0; k < maxPicks && done1 < want; k++ {
 		start := cp.clock.Now()
 		res, err := cp.picker.Pick(balancer.PickInfo{FullMethodName: "/verif/C14", Ctx: context.Background()})
 		if err != nil {
-			return fmt.Errorf("Pick with %d ready connections failed: %v", n, err)
+			cp.pickFailed(tr, err)
+			return nil
 		}
 		c := cp.byConn[res.SubConn]
 		tr.Emit(cp.proj(kit.M{"ev": "pick", "c": c, "t": cp.ms()}))
@@ -280,13 +453,16 @@ func c14ReorderTrace(tr *kit.Tracer, id, n int, seed int64) error {
 	if err != nil {
 		return err
 	}
-	tr.Emit(kit.M{"ev": "reset", "n": n, "id": id, "profile": "reorder"})
+	if !cp.start(tr, id, "reorder") {
+		return nil
+	}
 	var calls []c14Call
 	pick := func() (bool, error) {
 		start := cp.clock.Now()
 		res, err := cp.picker.Pick(balancer.PickInfo{FullMethodName: "/verif/C14", Ctx: context.Background()})
 		if err != nil {
-			return false, fmt.Errorf("Pick with %d ready connections failed: %v", n, err)
+			cp.pickFailed(tr, err)
+			return false, nil
 		}
 		c := cp.byConn[res.SubConn]
 		tr.Emit(cp.proj(kit.M{"ev": "pick", "c": c, "t": cp.ms()}))
@@ -398,7 +574,9 @@ func c14ConcTrace(tr *kit.Tracer, id, n, g, iters int, seed int64) error {
 	if err != nil {
 		return err
 	}
-	tr.Emit(kit.M{"ev": "reset", "n": n, "id": id, "profile": "conc"})
+	if !cp.start(tr, id, "conc") {
+		return nil
+	}
 	picks, dones := make([]atomic.Int64, n+1), make([]atomic.Int64, n+1)
 	var mu sync.Mutex
 	lmin, lmax, seen := make([]int64, n+1), make([]int64, n+1), make([]int64, n+1)
@@ -456,6 +634,175 @@ func c14ConcTrace(tr *kit.Tracer, id, n, g, iters int, seed int64) error {
 	}
 	ev["picks"], ev["dones"], ev["lmin"], ev["lmax"], ev["seen"] = pk, dn, lmin[1:], lmax[1:], seen[1:]
 	tr.Emit(cp.proj(ev))
+	return nil
+}
+
+// client sizes of the multi histories (at most 8 connections per history); every connection that
+// becomes ready or leaves the ready set makes the client's balancer publish a new picker
+var c14Shapes = [][]int{{3, 2}, {2, 3}, {3, 3, 2}, {2, 2}, {1, 3}, {4, 2, 2}, {3, 1}, {2, 1, 2}, {5, 3}, {3, 3}, {1, 1, 1}, {2, 4}}
+
+type c14MCall struct {
+	cp    *c14Picker
+	c     int
+	start time.Duration
+	done  func(balancer.DoneInfo)
+}
+
+// one multi-picker history: clients are created one after the other by the registered builder,
+// their connections become ready, go down (transient failure or idle) and come back; the pickers
+// published last serve the picks, a superseded picker still serves a few ("grace") picks after
+// its successor was published, and calls complete in any order, also long after their picker was
+// superseded.  Every event carries the id of its picker.
+func c14MultiTrace(tr *kit.Tracer, id, ops int, seed int64) error {
+	rng := rand.New(rand.NewSource(seed))
+	shape := c14Shapes[id%len(c14Shapes)]
+	univ := 0
+	for _, k := range shape {
+		univ += k
+	}
+	w := newC14World(univ)
+	tr.Emit(kit.M{"ev": "reset", "n": univ, "id": id, "profile": "multi", "shape": shape})
+	var clients []*c14Client
+	latest := map[*c14Client]*c14Picker{}
+	var old []*c14Picker // superseded pickers with grace picks left
+	grace := map[*c14Picker]int{}
+	var calls []c14MCall
+	broken := false // a picker that cannot be driven was logged: the history ends
+	// handle what the client's balancer published since the driver looked last
+	publish := func(cl *c14Client) error {
+		if cl.latest == cl.seen {
+			return nil
+		}
+		if prev := latest[cl]; prev != nil {
+			if g := rng.Intn(6); g > 0 {
+				grace[prev] = g
+				old = append(old, prev)
+			}
+		}
+		cp, err := w.register(cl, seed^0x5eed)
+		if err != nil {
+			return err
+		}
+		latest[cl] = cp
+		if cp != nil {
+			cp.emitBuild(tr)
+			if !cp.usable() {
+				broken = true
+			}
+		}
+		return nil
+	}
+	room := func(k int) bool { return w.npick+k <= c14MaxPickers }
+	pickOn := func(cp *c14Picker) bool {
+		start := w.clock.Now()
+		res, err := cp.picker.Pick(balancer.PickInfo{FullMethodName: "/verif/C14", Ctx: context.Background()})
+		if err != nil {
+			cp.pickFailed(tr, err)
+			return false
+		}
+		c := w.byConn[res.SubConn] // 0 = not a connection of this history
+		tr.Emit(cp.proj(kit.M{"ev": "pick", "p": cp.pid, "c": c, "t": w.ms()}))
+		if c == 0 || cp.sub[c] == nil || res.Done == nil {
+			return false // the rest of the history cannot be attributed
+		}
+		calls = append(calls, c14MCall{cp: cp, c: c, start: start, done: res.Done})
+		return true
+	}
+	finish := func(i int) {
+		call := calls[i]
+		calls = append(calls[:i], calls[i+1:]...)
+		code := c14Codes[rng.Intn(len(c14Codes))]
+		if rng.Intn(3) == 0 {
+			code = "nil"
+		}
+		lat := int64((w.clock.Now() - call.start) / time.Microsecond)
+		call.done(balancer.DoneInfo{Err: c14Err(code)})
+		tr.Emit(call.cp.proj(kit.M{"ev": "done", "p": call.cp.pid, "c": call.c, "code": code, "lat": lat, "t": w.ms()}))
+	}
+	for k := 0; k < ops && !broken; k++ {
+		if adv := c14PickAdv(rng); adv > 0 && w.ms() < 15*60*1000 {
+			w.clock.Advance(time.Duration(adv) * time.Millisecond)
+		}
+		var alive []*c14Picker
+		var downs, ups []struct {
+			cl *c14Client
+			sc *c14Conn
+		}
+		starting := false // some client has no ready connection yet
+		for _, cl := range clients {
+			if cp := latest[cl]; cp != nil {
+				alive = append(alive, cp)
+			}
+			nr := len(cl.readyIDs())
+			starting = starting || nr == 0
+			for _, sc := range cl.conns {
+				if cl.state[sc] != connectivity.Ready {
+					ups = append(ups, struct {
+						cl *c14Client
+						sc *c14Conn
+					}{cl, sc})
+				} else if nr >= 2 {
+					downs = append(downs, struct {
+						cl *c14Client
+						sc *c14Conn
+					}{cl, sc})
+				}
+			}
+		}
+		live := old[:0]
+		for _, cp := range old {
+			if grace[cp] > 0 {
+				live = append(live, cp)
+			}
+		}
+		old = live
+		canAdd := len(clients) < len(shape) && room(shape[len(clients)])
+		r := rng.Intn(100)
+		switch {
+		case len(clients) == 0 || (canAdd && !starting && r < 7):
+			cl, err := w.newClient(len(clients), shape[len(clients)])
+			if err != nil {
+				return err
+			}
+			clients = append(clients, cl)
+			if err := publish(cl); err != nil {
+				return err
+			}
+		case len(ups) > 0 && room(1) && (len(alive) == 0 || (starting && r < 40) || r < 14):
+			u := ups[rng.Intn(len(ups))]
+			if u.cl.state[u.sc] == connectivity.Idle {
+				u.cl.set(u.sc, connectivity.Connecting)
+			}
+			u.cl.set(u.sc, connectivity.Ready)
+			if err := publish(u.cl); err != nil {
+				return err
+			}
+		case len(alive) == 0:
+			return nil // no room left for the picker that would be needed
+		case len(downs) > 0 && room(2) && r >= 14 && r < 20:
+			d := downs[rng.Intn(len(downs))]
+			d.cl.set(d.sc, []connectivity.State{connectivity.TransientFailure, connectivity.Idle}[rng.Intn(2)])
+			if err := publish(d.cl); err != nil {
+				return err
+			}
+		case len(old) > 0 && r >= 20 && r < 55:
+			cp := old[rng.Intn(len(old))]
+			grace[cp]--
+			if !pickOn(cp) {
+				return nil
+			}
+		case len(calls) > 0 && (len(calls) >= 10 || r >= 55 && r < 78):
+			finish(rng.Intn(len(calls)))
+		default:
+			if !pickOn(alive[rng.Intn(len(alive))]) {
+				return nil
+			}
+		}
+	}
+	for len(calls) > 0 && !broken {
+		w.clock.Advance(time.Duration(1+rng.Intn(300)) * time.Millisecond)
+		finish(rng.Intn(len(calls)))
+	}
 	return nil
 }
 
@@ -577,6 +924,21 @@ func TestVerifC14(t *testing.T) {
 			}
 			if err := c14ConcTrace(tr, id, sizes[id%len(sizes)], 8, iters, seed*1000003+int64(id)); err != nil {
 				t.Fatalf("concurrent run %d: %v", id, err)
+			}
+		}
+	case "multi":
+		tr, err := kit.NewTracer(out)
+		if err != nil {
+			t.Fatal(err)
+		}
+		defer tr.Close()
+		traces, ops := kit.EnvInt("VERIF_C14_TRACES", 200), kit.EnvInt("VERIF_C14_OPS", 120)
+		for id := 0; id < traces; id++ {
+			if only >= 0 && id != only {
+				continue
+			}
+			if err := c14MultiTrace(tr, id, ops, seed*1000003+int64(id)); err != nil {
+				t.Fatalf("multi history %d: %v", id, err)
 			}
 		}
 	case "streak":
